@@ -58,7 +58,10 @@ def wide(b):
 
 
 def py_decode(env, sch, b, pos, hits):
-    """decode under translated schemas (evidence only: which enum variants occur in the real byte streams)"""
+    """decode under translated schemas: which enum variants occur in the real byte streams, and a pre-check that
+    the stream parses under the tables translated on this run (only then is it handed to the Coq decoder)"""
+    if pos > len(b):
+        raise ValueError("past the end")
     k = sch[0]
     if k == "Ref":
         if env[sch[1]][0] == "Enum":
@@ -74,21 +77,29 @@ def py_decode(env, sch, b, pos, hits):
         return pos + 1
     if k in ("Str", "Bytes"):
         n = int.from_bytes(b[pos:pos + 4], "little")
+        if pos + 4 + n > len(b):
+            raise ValueError("length past the end")
         return pos + 4 + n
     if k == "Seq":
         n = int.from_bytes(b[pos:pos + 4], "little")
+        if n > len(b):
+            raise ValueError("count past the end")
         pos += 4
         for _ in range(n):
             pos = py_decode(env, sch[1], b, pos, hits)
         return pos
     if k == "Map":
         n = int.from_bytes(b[pos:pos + 4], "little")
+        if n > len(b):
+            raise ValueError("count past the end")
         pos += 4
         for _ in range(n):
             pos = py_decode(env, sch[1], b, pos, hits)
             pos = py_decode(env, sch[2], b, pos, hits)
         return pos
     if k == "Opt":
+        if pos >= len(b) or b[pos] > 1:
+            raise ValueError("option tag")
         t = b[pos]
         hits["Option." + ("Some" if t else "None")] = hits.get("Option." + ("Some" if t else "None"), 0) + 1
         return py_decode(env, sch[1], b, pos + 1, hits) if t else pos + 1
@@ -102,6 +113,8 @@ def py_decode(env, sch, b, pos, hits):
 
 
 def py_decode_enum(env, name, sch, b, pos, hits):
+    if pos >= len(b):
+        raise ValueError("past the end")
     tag = b[pos]
     for c, t, body in sch[1]:
         if t == tag:
@@ -378,7 +391,9 @@ class Gen:
                 atoms.append(r.choice(opts))
             name = "r%d" % ri
             tags = r.choice(["", "", " : t1", " : alpha beta", " : x"])
-            metas = r.choice(["", "", 'meta: author = "me" n = 3 ok = true ', 'meta: s = "\\x00\\xffbin" neg = -5 f = false '])
+            metas = r.choice(["", "", 'meta: author = "me" n = 3 ok = true ', 'meta: s = "\\x00\\xffbin" neg = -5 f = false ',
+                              'meta: big = 6000000000 date = 1700000000000 low = -9223372036854775807 top = 9223372036854775807 '
+                              'edge = 2147483648 nedge = -2147483649 '])
             text = ""
             for i, imp in sorted(imports):
                 if i == ri:
@@ -391,6 +406,9 @@ class Gen:
         params = r.choice([{}, {"compute_full_matches": True}, {"match_max_length": r.choice([1, 4, 512])},
                            {"string_max_nb_matches": r.choice([1, 2, 1000])}, {"include_not_matched": True},
                            {"compute_full_matches": True, "string_max_nb_matches": 3, "match_max_length": 16}])
+        if r.chance(1, 3):
+            # a timeout that no scan here reaches, with parts below a millisecond and below a microsecond
+            params = dict(params, timeout_ns=r.choice([2500750000, 800000, 1, 999999999, 3000000001, 1000000]))
         lattice = [
             {"params": {}, "api": "list"}, {"params": {"compute_full_matches": True}, "api": "list"},
             {"params": {"compute_full_matches": True}, "api": "callback"},
@@ -498,6 +516,7 @@ class C10(Prop):
     # ---------------------------------------------------------------- translators
     def translators(self, ctx):
         problems = []
+        self._env = None
         try:
             tr, text = wire_schema.translate(core.REPO)
             self._env = tr.read
@@ -619,7 +638,11 @@ class C10(Prop):
         return out
 
     def extra_search(self, ctx, rng, around):
-        return self.generate(ctx, rng, 300)
+        import time
+        # total budget of the failing-input search: none once the run is older than 5 minutes
+        if time.time() - ctx.t0 > 300:
+            return []
+        return self.generate(ctx, rng, 200)
 
     # ---------------------------------------------------------------- execution
     def execute(self, ctx, cases):
@@ -672,6 +695,19 @@ class C10(Prop):
             # crash, to_bytes or from_bytes error: the scanner cannot be saved and reloaded
             return (False, False, 0)
         file = bytes.fromhex(out["file"])
+        # The Coq decoder is only given streams that parse, to the last byte, under the tables translated on this
+        # run.  Otherwise (translator refused the source, or the bytes do not follow the translated tables) the
+        # correspondence is broken for this case, decided here: a misparsed length would make vm_compute build
+        # a unary number of that size.
+        env = getattr(self, "_env", None)
+        parses = False
+        if env:
+            try:
+                parses = py_decode(env, ("Ref", "Scanner"), file, 20, {}) == len(file)
+            except Exception:
+                parses = False
+        if not parses:
+            return (False, bool(out["same"]), 0)
         if len(file) > 6000:
             # keep vm_compute inputs small: judged on the implementation's side only
             return (True, bool(out["same"]), 0)
